@@ -1,93 +1,155 @@
 #!/usr/bin/env python3
-"""Gen/FoldFacts.v (property C02): how the builders of lib/src/compiler/ir/mod.rs fold constant
-operands - which Rust operation each uses.  Cond/Quirks.v (prefold) is built from these facts and
-QuirksProofs.fold_sound re-proves, against them, that folding does not change the value.
+"""Gen/FoldGen.v from lib/src/compiler/ir/mod.rs (constant folding, C03).
 
-* IR::minus: `v.wrapping_neg()`; IR::bitwise_not: `!val`;
-* IR::bitwise_and / or / xor: `lhs_val & | ^ rhs_val` on the i64 constants;
-* IR::shl / shr: only with `rhs_val >= 0`; `if rhs_val >= LIMIT { OVER } else { lhs_val << / >> rhs_val }`
-  on i64 values (so >> is the arithmetic shift);
-* IR::add / sub / mul: fold_arithmetic with i64::checked_add / checked_sub / checked_mul, only when
-  every operand is constant, left to right, NumberOutOfRange on overflow;
-* IR::div / modulus: never folded.
-Any other shape is a TranslateError.
+Extracted:
+* through which Rust type `fold_arithmetic` reduces INTEGER operands:
+  `fold_via_f64` is true iff integer operands are converted with `v as f64`
+  and the integer result is produced by `folded as i64`; it is false iff the
+  body uses checked i64 arithmetic instead (anything else: TranslateError);
+* the two bounds of the range test that follows the reduction
+  (`folded >= i64::MIN as f64 && folded <= i64::MAX as f64`) as the integers
+  named in the source (the model applies `as f64` = round53 to them);
+* which IR constructors call fold_arithmetic and with which closure
+  (add: acc + x, sub: acc - x, mul: acc * x; div / modulus: not folded);
+* which other constructors fold under `self.constant_folding`
+  (minus, bitwise_not, bitwise_and/or/xor, shl, shr, not, and, or) and that
+  the comparison constructors do not: the hand-written model (Opt/Fold.v)
+  has exactly these rules, so a change of the set is a TranslateError.
 """
 import re
 from tlib import *
 
+INT_NAMES = {"i64::MIN": -(2 ** 63), "i64::MAX": 2 ** 63 - 1}
 
-def squash(s):
-    return re.sub(r"\s+", " ", s)
+EXPECT_FOLDING = {
+    # constructor -> must contain `self.constant_folding`
+    "ident": True, "not": True, "and": True, "or": True, "minus": True, "defined": False,
+    "bitwise_not": True, "bitwise_and": True, "bitwise_or": True, "bitwise_xor": True,
+    "shl": True, "shr": True, "add": True, "sub": True, "mul": True, "div": False, "modulus": False,
+    "eq": False, "ne": False, "ge": False, "gt": False, "le": False, "lt": False,
+}
+CLOSURES = {"add": "+", "sub": "-", "mul": "*"}
+
+
+def ir_impl(text):
+    """concatenation of the `impl IR {` blocks"""
+    out, pos = [], 0
+    while True:
+        m = re.compile(r"\nimpl\s+IR\s*\{").search(text, pos)
+        if not m:
+            break
+        i = m.end() - 1
+        j = match_brace(text, i)
+        out.append(text[i + 1:j])
+        pos = j
+    if not out:
+        raise TranslateError("no `impl IR {` block in ir/mod.rs")
+    return "\n".join(out)
 
 
 def main():
-    ir = strip_comments(src("lib/src/compiler/ir/mod.rs"))
+    text = src("lib/src/compiler/ir/mod.rs")
+    impl = ir_impl(text)
+    fa = strip_comments(fn_body(impl, "fold_arithmetic", "IR::fold_arithmetic"))
+    flat = re.sub(r"\s+", " ", fa)
 
-    def body(name):
-        return squash(fn_body(ir, name))
+    int_to_f64 = re.search(r"Integer\s*\{[^}]*\}\s*=>\s*v\s+as\s+f64", flat) is not None
+    back_to_i64 = re.search(r"const_integer_from\(\s*folded\s+as\s+i64\s*\)", flat) is not None
+    # checked i64 folding: either checked_* calls in the body, or an integer closure
+    # `FnMut(i64, i64) -> Option<i64>` applied with try_fold in the `!is_float` branch
+    sig = re.sub(r"\s+", " ", strip_comments(impl[impl.index("fn fold_arithmetic"):impl.index("fn fold_arithmetic") + 600]))
+    closure_checked = (re.search(r"FnMut\(i64, i64\) -> Option<i64>", sig) is not None and
+                       re.search(r"if !is_float \{.*?values\.try_fold\(first, i\) \{ Some\(folded\) => \{? ?Ok\(Some\(TypeValue::const_integer_from\(folded\)\)\) \}? ?,? None => Err\(Error::NumberOutOfRange\),? \}", flat) is not None)
+    checked = "checked_" in flat or closure_checked
+    if int_to_f64 and back_to_i64:
+        via_f64 = True
+    elif not back_to_i64 and checked:
+        # the integer result no longer comes out of the f64 accumulator (integers may still be
+        # converted to f64 for float arithmetic)
+        via_f64 = False
+    else:
+        raise TranslateError("fold_arithmetic: cannot tell whether integers are folded through f64 "
+                             f"(v as f64: {int_to_f64}, folded as i64: {back_to_i64}, checked_*: {checked})")
 
-    # ---- unary
-    if "TypeValue::Integer { value: Const(v), .. } => { return self.constant(TypeValue::const_integer_from( v.wrapping_neg(), )); }" not in body("minus"):
-        raise TranslateError("IR::minus: integer constants are not folded with wrapping_neg")
-    if "try_as_const_integer()" not in body("bitwise_not") or "const_integer_from(!val)" not in body("bitwise_not"):
-        raise TranslateError("IR::bitwise_not: not folded with `!val` on an i64 constant")
-
-    # ---- bitwise binary
-    for name, op in (("bitwise_and", "&"), ("bitwise_or", "|"), ("bitwise_xor", "^")):
-        b = body(name)
-        if b.count("try_as_const_integer()") != 2 or f"const_integer_from(lhs_val {op} rhs_val)" not in b:
-            raise TranslateError(f"IR::{name}: not folded with `lhs_val {op} rhs_val` on i64 constants")
-
-    # ---- shifts
-    shifts = {}
-    for name, op in (("shl", "<<"), ("shr", ">>")):
-        b = body(name)
-        if b.count("try_as_const_integer()") != 2:
-            raise TranslateError(f"IR::{name}: the operands are not taken with try_as_const_integer (i64)")
-        if "&& rhs_val >= 0 {" not in b:
-            raise TranslateError(f"IR::{name}: the guard `rhs_val >= 0` is gone")
-        m = re.search(r"const_integer_from\( if rhs_val >= (\d+) \{ (\d+) \} else \{ lhs_val " + re.escape(op) + r" rhs_val \}, \)", b)
+    lo, hi = INT_NAMES["i64::MIN"], INT_NAMES["i64::MAX"]
+    if via_f64:
+        m = re.search(r"folded\s*>=\s*([A-Za-z0-9_:]+)\s+as\s+f64\s*&&\s*folded\s*<=\s*([A-Za-z0-9_:]+)\s+as\s+f64", flat)
         if not m:
-            raise TranslateError(f"IR::{name}: expected `if rhs_val >= LIMIT {{ OVER }} else {{ lhs_val {op} rhs_val }}` on i64 values")
-        shifts[name] = (int(m.group(1)), int(m.group(2)))
+            raise TranslateError("fold_arithmetic: range test `folded >= X as f64 && folded <= Y as f64` not found")
+        try:
+            lo, hi = INT_NAMES[m.group(1)], INT_NAMES[m.group(2)]
+        except KeyError as e:
+            raise TranslateError(f"fold_arithmetic: unknown bound {e} in the range test")
+        if "NumberOutOfRange" not in flat:
+            raise TranslateError("fold_arithmetic: the out-of-range branch no longer returns NumberOutOfRange")
 
-    # ---- n-ary arithmetic
-    fa = body("fold_arithmetic")
-    if "if !operands.iter().all(|op| self.get(*op).type_value().is_const()) { return Ok(None); }" not in fa:
-        raise TranslateError("fold_arithmetic: `all operands constant` test not found")
-    if "values.try_fold(first, i)" not in fa or "None => Err(Error::NumberOutOfRange)" not in fa:
-        raise TranslateError("fold_arithmetic: integers are not folded left to right with the checked operation / NumberOutOfRange")
-    for name, chk in (("add", "i64::checked_add"), ("sub", "i64::checked_sub"), ("mul", "i64::checked_mul")):
-        b = body(name)
-        m = re.search(r"self\.fold_arithmetic\( operands\.as_slice\(\), is_float, \|acc, x\| acc (.) x, (\S+), \)\?", b)
-        if not m or m.group(2) != chk or m.group(1) != {"add": "+", "sub": "-", "mul": "*"}[name]:
-            raise TranslateError(f"IR::{name}: not folded through fold_arithmetic with {chk}")
+    flags = {}
+    for name, expect in EXPECT_FOLDING.items():
+        body = strip_comments(fn_body(impl, name, f"IR::{name}"))
+        has = "self.constant_folding" in body
+        if has != expect:
+            raise TranslateError(f"IR::{name}: {'now' if has else 'no longer'} guarded by self.constant_folding; "
+                                 "the folding rules of Opt/Fold.v must be revised")
+        flags[name] = has
+    uses = {}
+    for name, op in CLOSURES.items():
+        body = re.sub(r"\s+", " ", strip_comments(fn_body(impl, name, f"IR::{name}")))
+        m = re.search(r"self\.fold_arithmetic\(\s*operands\.as_slice\(\)\s*,\s*is_float\s*,\s*\|acc,\s*x\|\s*acc\s*(\S)\s*x\s*,?\s*(?:(?:\|acc,\s*x\|\s*acc\.checked_|i64::checked_)(add|sub|mul)(?:\(x\))?\s*,?\s*)?\)", body)
+        if not m:
+            if "fold_arithmetic" in body or "checked_" in body:
+                raise TranslateError(f"IR::{name}: call of fold_arithmetic has an unexpected shape")
+            uses[name] = False
+        else:
+            if m.group(1) != op:
+                raise TranslateError(f"IR::{name}: folding closure is `acc {m.group(1)} x`, expected `acc {op} x`")
+            if m.group(2) and m.group(2) != name:
+                raise TranslateError(f"IR::{name}: integer folding closure is checked_{m.group(2)}")
+            uses[name] = True
+            if not via_f64 and closure_checked and not m.group(2):
+                raise TranslateError(f"IR::{name}: no checked integer closure passed to fold_arithmetic")
     for name in ("div", "modulus"):
-        b = body(name)
-        if "constant_folding" in b or "fold_arithmetic" in b or "self.constant(" in b:
-            raise TranslateError(f"IR::{name}: folds constants now")
+        if "fold_arithmetic" in fn_body(impl, name):
+            raise TranslateError(f"IR::{name} now folds; Opt/Fold.v does not model it")
 
-    text = f"""(* GENERATED by translate/gen_fold.py from lib/src/compiler/ir/mod.rs - do not edit *)
+    # shl / shr: the `rhs_val >= 0` guard and the `>= 64 -> 0` rule
+    for name, opx in (("shl", "<<"), ("shr", ">>")):
+        body = re.sub(r"\s+", " ", strip_comments(fn_body(impl, name)))
+        if not re.search(r"rhs_val\s*>=\s*0", body) or not re.search(r"if\s+rhs_val\s*>=\s*64\s*\{\s*0\s*\}\s*else\s*\{\s*lhs_val\s*" + re.escape(opx) + r"\s*rhs_val\s*\}", body):
+            raise TranslateError(f"IR::{name}: folding rule `rhs_val >= 0 && (if rhs_val >= 64 {{0}} else {{lhs_val {opx} rhs_val}})` not found")
+    body = re.sub(r"\s+", " ", strip_comments(fn_body(impl, "minus")))
+    if re.search(r"const_integer_from\(\s*v\.wrapping_neg\(\)\s*,?\s*\)", body):
+        minus_wraps = True
+    elif re.search(r"const_integer_from\(\s*-v\s*\)", body):
+        minus_wraps = False          # plain `-v`: overflow panic on i64::MIN when overflow checks are on
+    else:
+        raise TranslateError("IR::minus: neither `const_integer_from(-v)` nor `const_integer_from(v.wrapping_neg())` found")
+
+    b = lambda x: "true" if x else "false"
+    out = f"""(* GENERATED by translate/gen_fold.py from lib/src/compiler/ir/mod.rs
+   -- do not edit; regenerated on every check. *)
 From Coq Require Import ZArith.
 Local Open Scope Z_scope.
 
-(* IR::shl / IR::shr fold only a non-negative constant count; a count >= limit gives [over];
-   below, `lhs_val << rhs_val` / `lhs_val >> rhs_val` on i64 (>> arithmetic) *)
-Definition shift_fold_needs_nonneg_count : bool := true.
-Definition shl_fold_limit : Z := {shifts['shl'][0]}.
-Definition shl_fold_over : Z := {shifts['shl'][1]}.
-Definition shr_fold_limit : Z := {shifts['shr'][0]}.
-Definition shr_fold_over : Z := {shifts['shr'][1]}.
-Definition shr_fold_arithmetic : bool := true.
-(* IR::add / sub / mul: checked i64 arithmetic over ALL the operands of the n-ary node *)
-Definition nary_fold_checked : bool := true.
-Definition nary_fold_needs_all_constant : bool := true.
-(* IR::div / IR::modulus never fold *)
-Definition div_mod_folded : bool := false.
-(* IR::minus: wrapping_neg; IR::bitwise_not / and / or / xor: ! & | ^ on i64 *)
-Definition minus_fold_wraps : bool := true.
+(* fold_arithmetic reduces integer constants through f64 (v as f64 ... folded as i64) *)
+Definition fold_via_f64 : bool := {b(via_f64)}.
+
+(* range test after the reduction: folded >= range_lo_int as f64 && folded <= range_hi_int as f64 *)
+Definition range_lo_int : Z := ({lo}).
+Definition range_hi_int : Z := {hi}.
+
+(* IR::add / sub / mul call fold_arithmetic with |acc, x| acc OP x *)
+Definition add_uses_fold_arithmetic : bool := {b(uses['add'])}.
+Definition sub_uses_fold_arithmetic : bool := {b(uses['sub'])}.
+Definition mul_uses_fold_arithmetic : bool := {b(uses['mul'])}.
+
+(* IR::minus folds `-v` with wrapping_neg (false: plain `-v`, which panics on i64::MIN
+   when overflow checks are on) *)
+Definition minus_wraps : bool := {b(minus_wraps)}.
+
+(* comparison constructors (eq ne lt le gt ge) are not folded *)
+Definition comparisons_folded : bool := {b(any(flags[n] for n in ('eq', 'ne', 'lt', 'le', 'gt', 'ge')))}.
 """
-    write_if_changed("FoldFacts.v", text)
+    write_if_changed("FoldGen.v", out)
 
 
 if __name__ == "__main__":
